@@ -63,7 +63,9 @@ def s_axis_map(draw, Ns, Nd, klass, ttol, stol):
     else:  # covering
         L = -float(draw(st.integers(1, 5)))
     if klass == "shift_sub" or draw(st.integers(0, 5)) == 0:
-        L += draw(st.sampled_from([0.0, 0.2 * ttol, -0.2 * ttol, 0.9 * ttol, -0.9 * ttol, 1.1 * ttol, -1.1 * ttol, 0.3, -0.3, 0.5]))
+        # +-ttol itself: exactly on the tolerance (an exact binary fraction for ttol = 0.25, 0.125): whichever way the
+        # code decides there, its eligibility test and its snapping must agree
+        L += draw(st.sampled_from([0.0, 0.2 * ttol, -0.2 * ttol, 0.9 * ttol, -0.9 * ttol, 1.1 * ttol, -1.1 * ttol, 0.3, -0.3, 0.5, ttol, -ttol]))
     mirror = draw(st.sampled_from([False, False, True]))
     if mirror:
         return -s, L + length, place, True
